@@ -2,7 +2,7 @@
    hypothesis, and a concrete history (build, external change of the generator's input, build again) satisfies the premises;
    the incremental session re-executes both tasks and returns what the from-scratch session returns. *)
 From Coq Require Import List NArith ZArith Bool Lia.
-From PieV Require Import Model.Dag Model.Build Proofs.StoreInv Proofs.History Proofs.ExecInv Proofs.ExecSession Proofs.Cert Proofs.Stable Proofs.Sim.
+From PieV Require Import Model.Dag Model.Build Proofs.StoreInv Proofs.History Proofs.ExecInv Proofs.ExecSession Proofs.Cert Proofs.Stable Proofs.Sim Proofs.NoAbort Proofs.Final.
 Import ListNotations.
 Open Scope N_scope.
 
@@ -74,4 +74,24 @@ Proof.
   destruct C01_premises as [A [B [C [D E]]]].
   pose proof (incremental_equals_scratch genx (fun _ => True) RCx OCx Px (fun _ _ v => enc v) HSx HWFx HCx HWx HOCx 0 50 50 hx opsx A B C) as X.
   cbv zeta in X. exact (X D E).
+Qed.
+
+
+(* the witness is also in the static class of the total theorems: requires go down in ordx, nobody panics *)
+Definition ordx (t : task) : nat := match t with 0 => 1%nat | _ => 0%nat end.
+Lemma HWOx : forall t, WFO ordx t (Px t).
+Proof.
+  intros t. destruct t as [|p]; [|destruct p as [p|p|]; try destruct p]; cbn [Px]; try constructor.
+  - cbn. lia.
+  - intros v. constructor. intros x. destruct x; constructor.
+  - intros v. constructor. intros x. constructor.
+Qed.
+Example C01_total_premises : hist_below ordx 50 hx /\ roots_below ordx 50 opsx.
+Proof. cbn. repeat split; lia. Qed.
+Example C01_total_instance :
+  Forall is_done (fst rax) /\ Forall is_done (fst rbx) /\ fst rax = fst rbx /\ forall r, get_content (snd rax) r = get_content (snd rbx) r.
+Proof.
+  destruct C01_total_premises as [A B].
+  pose proof (incremental_equals_scratch_total RCx OCx Px 0 genx (fun _ => True) ordx (fun _ _ v => enc v) HSx HWFx HWOx HCx HWx HOCx 50 50 hx opsx A B B) as X.
+  cbv zeta in X. exact X.
 Qed.
